@@ -944,6 +944,24 @@ def _native_irregular(tier="quick", seed=0):
         m2[pi] = (members[pi][0], members[pi][1].replace(b"</Relationships>", odd))
         bad = bad or opens(m2, "%s: external relationship with an odd target on the presentation part" % dname, base)
         rec("C16.native[%s].phantom_overrides_and_odd_external_target" % dname, bad)
+        # 10. a zip written by a general-purpose archiver: directory entries, members in another order, stored (not deflated), a comment
+        bad = None
+        dirs = sorted({n[: n.rfind("/") + 1] for n, _ in members if "/" in n} | {"ppt/", "docProps/", "_rels/"})
+        buf10 = io.BytesIO()
+        with zipfile.ZipFile(buf10, "w", zipfile.ZIP_STORED) as z10:
+            for dn in dirs:
+                z10.writestr(zipfile.ZipInfo(dn), b"")
+            for n, d in sorted(members, reverse=True):
+                z10.writestr(n, d)
+            z10.comment = b"made by some archiver"
+        evals[0] += 1
+        try:
+            got10 = _summary(Presentation(io.BytesIO(buf10.getvalue())))
+            if got10 != base:
+                bad = "%s: zip with directory entries, reversed member order, stored members: content differs" % dname
+        except Exception as e:
+            bad = "%s: zip with directory entries, reversed member order, stored members: %r" % (dname, e)
+        rec("C16.native[%s].zip_from_a_general_purpose_archiver" % dname, bad)
         # 8. pairs (thorough): dangling target x case flip, no-core x extra members
         if tier == "thorough":
             bad = None
